@@ -86,23 +86,22 @@ Proof. vm_compute. reflexivity. Qed.
 
 Definition reauth : string := "OnReAuthWrapper"%string.
 
-Lemma installed_refuted :
-  exists row, In row hook_rows /\ hr_field row = reauth /\ hr_collected row = true /\ hr_applied row = false.
+(* FULL statement (holds since repair 00ceffb; before it OnReAuthWrapper was collected and never applied) *)
+Lemma installed_all :
+  forall row, In row hook_rows -> row_installed row = true.
+Proof.
+  assert (H : forallb row_installed hook_rows = true) by (vm_compute; reflexivity).
+  intros row Hin. rewrite forallb_forall in H. exact (H row Hin).
+Qed.
+
+Lemma reauth_row_installed :
+  exists row, In row hook_rows /\ hr_field row = reauth /\ hr_collected row = true /\ hr_applied row = true.
 Proof.
   destruct (find (fun r => String.eqb (hr_field r) reauth) hook_rows) as [row|] eqn:F.
   - pose proof (find_some _ _ F) as [Hin Hf]. exists row. split; [exact Hin|].
     apply String.eqb_eq in Hf. split; [exact Hf|].
     revert F. vm_compute. intros F. inversion F. subst. split; reflexivity.
   - exfalso. revert F. vm_compute. discriminate.
-Qed.
-
-Lemma installed_partial :
-  forall row, In row hook_rows -> hr_field row <> reauth -> row_installed row = true.
-Proof.
-  assert (H : forallb (fun r => String.eqb (hr_field r) reauth || row_installed r) hook_rows = true)
-    by (vm_compute; reflexivity).
-  intros row Hin Hne. rewrite forallb_forall in H. specialize (H row Hin).
-  apply orb_true_iff in H as [H|H]; [|exact H]. apply String.eqb_eq in H. contradiction.
 Qed.
 
 (* every apply block that exists folds right-to-left from the hook of its own kind *)
@@ -144,3 +143,18 @@ Proof.
   - pose proof (find_some _ _ F) as [Hin Hf]. now exists row.
   - exfalso. revert F. vm_compute. discriminate.
 Qed.
+
+Theorem first_outermost :
+  forall (H : Type) (w : H -> H) (ws : list (H -> H)) (base : H),
+    compose (w :: ws) base = w (compose ws base).
+Proof. intros H w ws base. exact (compose_first_outermost w ws base). Qed.
+
+Theorem loop_shape :
+  forall (H : Type) (ws : list (H -> H)) (base : H),
+    loop_desc ws (List.length ws) base = compose ws base /\ loop_asc ws base = compose (rev ws) base.
+Proof. intros H ws base. split; [apply loop_desc_compose | apply loop_asc_compose_rev]. Qed.
+
+Example nesting_matters :
+  compose [tag 1; tag 2; tag 3] [] = [1; 2; 3] /\ loop_desc [tag 1; tag 2; tag 3] 3 [] = [1; 2; 3]
+  /\ loop_asc [tag 1; tag 2; tag 3] [] = [3; 2; 1].
+Proof. exact (conj compose_trace (conj loop_desc_trace loop_asc_trace)). Qed.
